@@ -24,6 +24,7 @@ Guards that add an operand on a CFG edge:
   G3  isinstance(I, C) (true) where I = intersection(U, X.carrier) and C is the
       carrier's class:            X's carrier lies in U, hence conf(X) |= U
   G4  every end point of a Segment X is `in` Y (Y convex):   conf(X) |= Y
+  G5  every vertex of a convex polygon X is `in` Y (all(...) / counting form):   conf(X) |= Y
 Kernel axioms (assumption A4): exactly one numeric construction is accepted in
 each of inter_line_line (Point), inter_line_plane (Point), inter_plane_plane (Line).
 The handlers are verified together (assume-guarantee over the mutual recursion).
@@ -216,6 +217,9 @@ class Confinement:
             return c
         if isinstance(e, (ast.GeneratorExp, ast.ListComp, ast.SetComp)):
             return self.comp_conf(e, env, fi)
+        if isinstance(e, ast.BinOp) and isinstance(e.op, (ast.Add, ast.BitOr)):
+            # list concatenation / set union: every element comes from one of the two sides
+            return meet(self.ev(e.left, env, fi), self.ev(e.right, env, fi))
         if isinstance(e, ast.Call):
             fn = e.func
             if isinstance(fn, ast.Name):
@@ -305,6 +309,11 @@ class Confinement:
             if d is not None:
                 return self.narrow(d, env, truth, fi)
             return env
+        g5 = self.all_vertices_guard(test, fi) if truth else None
+        if g5 is not None:
+            X, Y = g5
+            self.refine(env, X, self.selfconf(Y, env, fi), "G5", fi)
+            return env
         if isinstance(test, ast.Compare) and len(test.ops) == 1:
             op, L, R = test.ops[0], test.left, test.comparators[0]
             if (isinstance(op, ast.In) and truth) or (isinstance(op, ast.NotIn) and not truth):
@@ -326,6 +335,47 @@ class Confinement:
                 X, U, _ = pv
                 self.refine(env, ast.Name(id=X, ctx=ast.Load()), self.selfconf(U, env, fi), "G3", fi)
         return env
+
+    @staticmethod
+    def all_vertices_guard(test, fi):
+        """G5: every vertex of a convex polygon X lies in the convex set Y  ->  (X, Y)
+             all(p in Y for p in X.points)
+             len([p for p in X.points if p in Y]) == len(X.points)        (locals expanded)"""
+        from .astutil import expand_locals
+
+        def quant(comp, with_if):
+            if len(comp.generators) != 1:
+                return None
+            g = comp.generators[0]
+            if not (isinstance(g.target, ast.Name) and isinstance(g.iter, ast.Attribute) and g.iter.attr == "points"):
+                return None
+            t = g.target.id
+            if with_if:
+                if not (isinstance(comp.elt, ast.Name) and comp.elt.id == t and len(g.ifs) == 1):
+                    return None
+                c = g.ifs[0]
+            else:
+                if g.ifs:
+                    return None
+                c = comp.elt
+            if isinstance(c, ast.Compare) and len(c.ops) == 1 and isinstance(c.ops[0], ast.In) and isinstance(c.left, ast.Name) \
+                    and c.left.id == t and not any(isinstance(x, ast.Name) and x.id == t for x in ast.walk(c.comparators[0])):
+                return g.iter.value, c.comparators[0]
+            return None
+
+        e = expand_locals(fi.node, test, fi.params)
+        if isinstance(e, ast.Call) and isinstance(e.func, ast.Name) and e.func.id == "all" and len(e.args) == 1 \
+                and isinstance(e.args[0], (ast.GeneratorExp, ast.ListComp)):
+            return quant(e.args[0], False)
+        if isinstance(e, ast.Compare) and len(e.ops) == 1 and isinstance(e.ops[0], ast.Eq):
+            for a, b in ((e.left, e.comparators[0]), (e.comparators[0], e.left)):
+                if isinstance(a, ast.Call) and isinstance(a.func, ast.Name) and a.func.id == "len" and len(a.args) == 1 \
+                        and isinstance(a.args[0], ast.ListComp) and isinstance(b, ast.Call) and isinstance(b.func, ast.Name) \
+                        and b.func.id == "len" and len(b.args) == 1:
+                    q = quant(a.args[0], True)
+                    if q is not None and txt(b.args[0]) == txt(q[0]) + ".points":
+                        return q
+        return None
 
     def bool_def(self, fi, name: str):
         """the unique boolean definition of a local flag (`inside = p in b`), if its operands are stable"""
